@@ -272,6 +272,26 @@ class Gram:
                     changed = True
         return not any(n >= p for n in lens[self.start])
 
+    def word_lengths(self, bound):
+        """set of lengths <= bound of the words generated from the start symbol"""
+        lens = {X: set() for X in self.variables}
+        changed = True
+        while changed:
+            changed = False
+            for h, body in self.prods:
+                cur = {0}
+                for s in body:
+                    if s[0] == "T":
+                        cur = {n + 1 for n in cur if n + 1 <= bound}
+                    else:
+                        cur = {n + m for n in cur for m in lens[s] if n + m <= bound}
+                    if not cur:
+                        break
+                if cur and not cur <= lens[h]:
+                    lens[h] |= cur
+                    changed = True
+        return lens.get(self.start, set())
+
     def describe(self):
         def sy(s):
             return str(s[1]) if s[0] == "T" else "<%s>" % (s[1],)
